@@ -20,6 +20,10 @@ CLAIMED = {
  "C01": ("proof", "Lean 4 proof (inductive invariant over an executable engine model) + trace refinement check",
          "For every reachable state of the engine model a begun node has every (transitive) predecessor completed OK (C01_direct, C01_transitive, "
          "C01_enqueued, C01_counter). Kernel-checked for all graphs/schedules; tied to the code by regenerated Gen + trace replay of the real engine.", "4/C01"),
+ "C02": ("proof", "Lean 4 proof (gather/eval by structural induction, argument round-trip over edge permutations, schedule independence) + program differential",
+         "eval(gather v) = substitution with containers rebuilt by Python semantics; node-free subtrees keep their identity; opaque objects are not "
+         "traversed; getArgumentNodes returns positional and keyword arguments in the order given for any edge order; unpack exactness; any admissible "
+         "execution order gives every slot its eval value (C02_*).", "4/C02"),
  "C03": ("proof", "Lean 4 proof (perturbation lemma + invariant Good over all histories) + differential history replay",
          "Good (every stored value the next run treats as up to date equals its from-scratch value) is preserved by every completed write, source update "
          "and deletion in any order (C03_good_preserved); a complete run then leaves every stored value and every node's visible value equal to from-scratch "
@@ -78,6 +82,11 @@ CLAIMED = {
          "(C17_no_new, C17_no_new_ever, C17_inflight). Partial: signal delivery window before `stop = True` is runtime behaviour.", "4/C17"),
 }
 NOTES = {
+ "C02": ("Theorems are about Model/Plan.lean (Python values with identity tags, keyed multigraph, gather/addCall/unpack/getArgumentNodes transcribed, "
+         "eval on a topologically numbered plan, Herbrand user functions) with the regenerated Gen.Plan (unpack checks, GATHER_LOOKUP keys, skeleton of "
+         "_gather/_call/get_argument_nodes/BoundCall.run). Tie: T1 + T2 on seeded programs through the real Plan API and uberjob.run (all container "
+         "shapes, subclasses, shared objects, colliding keys, kwargs orders, unpack lengths), compared with the Lean driver and with a reference "
+         "evaluator, under several worker counts / schedulers / controlled schedules. Trusted: Python's set/dict/hash semantics of user objects."),
  "C11": ("Theorems are about Model/FileStore.lean (file system = path -> (content, mtime) + clock; a write is open-truncate staging, write chunks, close, "
          "replace, with the clean-up of the exception path; fault schedules of raise/die with partial effect at any operation, any number of faults) "
          "instantiated with the regenerated Gen.FileStore (staging suffix, position of os.replace relative to the try, handler type, per-store open "
